@@ -51,6 +51,8 @@ class Model:
             return op[1] != op[2] and self.par[op[2]] is None and not self.anc(op[2], op[1])
         if op[0] == "detach":
             return self.par[op[1]] is not None
+        if op[0] == "fix":       # documented call forms: fix_nsmap(root) / fix_nsmap(n, n.parent.nsmap)
+            return True
         return True
 
     def apply(self, op):
@@ -80,7 +82,13 @@ class Model:
 def real_apply(nodes, op):
     try:
         with time_limit(10):
-            if op[0] == "attach":
+            if op[0] == "fix":
+                nd = nodes[op[1]]
+                if nd.parent is not None and nd in nd.parent.children:
+                    Node.fix_nsmap(nd, nd.parent.nsmap)
+                else:
+                    Node.fix_nsmap(nd)
+            elif op[0] == "attach":
                 nodes[op[1]].add_child(nodes[op[2]])
             elif op[0] == "detach":
                 c = nodes[op[1]]
@@ -129,6 +137,7 @@ def ops_for(n, prefixes):
             for u in URIS:
                 o.append(("declare", x, k, u))
             o.append(("remove", x, k))
+        o.append(("fix", x))
     return o
 
 
@@ -138,6 +147,10 @@ def rebuild(n, path):
     m = Model(n)
     for op in path:
         real_apply(nodes, op)
+        if op[0] == "fix":
+            for i in m.sub(op[1]):
+                m.ns[i] = dict(nodes[i].nsmap)
+            continue
         m.apply(op)
         compare(nodes, m)   # resolve ANY entries
     return nodes, m
@@ -157,9 +170,20 @@ def check_step(n, path, op):
         raise Violation("replayed-state-differs", d[1], case)
     nontrivial = op[0] == "declare" and op[2] in nodes[op[1]].nsmap and shares_outside(nodes, m, op[1])
     inside = set(m.sub(op[1])) if op[0] in ("declare", "remove") else set(m.sub(op[2])) if op[0] == "attach" else set()
+    if op[0] == "fix":
+        inside = set(m.sub(op[1]))
+        before = [dict(nd.nsmap) for nd in nodes]
     err = real_apply(nodes, op)
     if err:
         raise Violation(op[0] + "-raises:" + err.split(":")[0], f"{op}: {err}", case)
+    if op[0] == "fix":
+        for i, nd in enumerate(nodes):
+            if i not in inside and dict(nd.nsmap) != before[i]:
+                raise Violation("bulk-helper-outside-subtree", f"{op}: node {i} outside the subtree changed "
+                                f"{before[i]!r} -> {dict(nd.nsmap)!r}", case)
+        for i in inside:
+            m.ns[i] = dict(nodes[i].nsmap)
+        return nodes, m, False
     m.apply(op)
     d = compare(nodes, m)
     if d:
